@@ -2,25 +2,8 @@
   Line-protocol driver: one JSON request per line on stdin, one JSON reply per
   line on stdout.  Dispatches on the "p" (property) field.
 -/
-import PyElf.Driver.Json
+import PyElf.Driver.Loop
 import PyElf.Driver.Handlers
 open Lean PyElf
 
-partial def loop (hin hout : IO.FS.Stream) : IO Unit := do
-  let line ← hin.getLine
-  if line.isEmpty then return ()
-  let reply : Json :=
-    match Json.parse line with
-    | .error e => Json.mkObj [("fatal", Json.str s!"json: {e}")]
-    | .ok req =>
-      let idv := (req.getObjVal? "id").toOption.getD Json.null
-      match handle req with
-      | .ok (Json.obj o) => Json.obj (o.insert "id" idv)
-      | .ok j => Json.mkObj [("id", idv), ("out", j)]
-      | .error e => Json.mkObj [("id", idv), ("fatal", Json.str e)]
-  hout.putStrLn reply.compress
-  hout.flush
-  loop hin hout
-
-def main : IO Unit := do
-  loop (← IO.getStdin) (← IO.getStdout)
+def main : IO Unit := PyElf.Driver.runLoop handle
